@@ -42,6 +42,34 @@ CHECKS = {
         note="Stream non-overlap decided on a 4096-output prefix; grid bounds b<=12/24, t<=5/7, n<=8/12.",
         technique="call-order trace monitor with unique step tags + generator-state comparison",
     ),
+    "C02": dict(
+        cat="exploration",
+        text="Every observable of hostile, superset-mapped (real hold-out split / supplied mapping) and zero-row screens is compared field by field (strings by value, floats by bits, ids and mappings incl. rows absent from the data) after 1-4 real save_h5/load_h5 cycles, cycle k against cycle k-1; same for ExperimentSpace.",
+        ref="4/C02",
+        note="h5py/numpy trusted; files compared through loaded content; NUL-containing names excluded.",
+        technique="round-trip differential monitor over real h5 files with bit-level comparators",
+    ),
+    "C03": dict(
+        cat="exploration",
+        text="Lineages through the real preparation path (mask, plate permutation, hold-out split with singletons that land only in the hold-out) followed by random histories of reveal/mask/unmask/save+load/reveal_plate CLI; every stage's ids are compared with the lineage root's name->id maps, embedding sizes must not shrink and a posterior sample sized by the root space must predict bit-identical means on rows matched by unique observation tags.",
+        ref="4/C03",
+        note="Histories up to 12 steps; root = the screen handed to the hold-out split; the monitor counts stages where a condition exists only in the hold-out and is inconclusive below a minimum.",
+        technique="history monitor with lineage-root reference maps + cross-stage prediction differential",
+    ),
+    "C12": dict(
+        cat="exploration",
+        text="Operation histories (mask, unmask, reveal of fresh/observed/repeated/unknown id sets, save+load, reveal_plate and extract_screen_metadata CLIs in-process) replayed against a reference model (dict plate->bool + immutable row table keyed by unique observation tags): mask, rows, plate labels, value bits and JSON counters compared after every step; single-shot cases for constructor clauses, set_observed and zero/NaN refusals; thorough adds the repo test-suite under the per-plate uniformity invariant.",
+        ref="4/C12",
+        note="Histories up to 15 operations; refusal of all-zero values judged only when every revealed plate is all zero.",
+        technique="history + executable reference model; class invariant on Screen.__init__",
+    ),
+    "C14": dict(
+        cat="exploration",
+        text="Random compositions (nesting depth up to 6) of subset/combine/concat/invert/get_plate/plates/observed/unobserved/to_screen/unique filter checked against an index-tuple reference model, all earlier views re-checked after every node (aliasing), cross-parent combine must raise; thorough adds index-algebra post-conditions on the view operations under the repo's own tests.",
+        ref="4/C14",
+        note="Screens up to 30 rows, up to 40 nodes per screen; Plate.merge excluded (documented mutation).",
+        technique="reference model (sorted index tuples) over random operation trees + aliasing re-checks",
+    ),
 }
 
 NOT_BUILT_REASON = "check not built yet in this revision (planned, see DESIGN.md section 4)"
